@@ -426,6 +426,47 @@ def clone_graph(roots):
     return {k: cp(v) for k, v in roots.items()}, memo
 
 
+def local_order(fn_node):
+    """names of the local variables of a function in the order of their first binding (parameters excluded)"""
+    params = {a.arg for a in fn_node.args.posonlyargs + fn_node.args.args + fn_node.args.kwonlyargs}
+    seen, out = set(), []
+
+    class V(ast.NodeVisitor):
+        def visit_Name(self, n):
+            if isinstance(n.ctx, ast.Store) and n.id not in params and n.id not in seen:
+                seen.add(n.id)
+                out.append(n.id)
+
+        def visit_FunctionDef(self, n):
+            if n is fn_node:
+                self.generic_visit(n)
+
+        visit_AsyncFunctionDef = visit_FunctionDef
+
+        def visit_Lambda(self, n):
+            pass
+    V().visit(fn_node)
+    return out
+
+
+_LOCALS_ORDER = None
+
+
+def recorded_local_order(fq):
+    """the order recorded when the loop specifications were written (contracts/locals_order.json)"""
+    global _LOCALS_ORDER
+    if _LOCALS_ORDER is None:
+        import json
+        import os
+        p = os.path.join(os.path.dirname(os.path.dirname(os.path.abspath(__file__))), "contracts", "locals_order.json")
+        try:
+            with open(p) as fh:
+                _LOCALS_ORDER = json.load(fh)
+        except OSError:
+            _LOCALS_ORDER = {}
+    return _LOCALS_ORDER.get(fq)
+
+
 class Roots:
     """attribute-style access to a dict of named root values (contract-side convenience)."""
 
@@ -1547,23 +1588,44 @@ class Interp:
                     raise CheckerError("runaway concrete loop")
         self.cut_loop(s, fr, spec)
 
+    def local_alias(self, finfo):
+        """A loop specification names locals as they were called when it was written.  If the function's locals were renamed
+        (same number, same order of first binding) the recorded names are resolved to the current ones, so that a specification
+        does not depend on incidental names."""
+        rec = recorded_local_order(finfo.fq)
+        if not rec:
+            return {}
+        cur = local_order(finfo.node)
+        if rec == cur or len(rec) != len(cur):
+            return {}
+        return {r: c for r, c in zip(rec, cur) if r != c}
+
     def cut_loop(self, s, fr, spec, n=None, item_at=None):
         """Replace the loop by its invariant: init obligation; arbitrary iteration; exit."""
         ctx = self.ctx
         name = f"{fr.finfo.fq}::loop@{s.lineno}"
         is_for = n is not None
+        alias = self.local_alias(fr.finfo)
+
+        def view(d):   # recorded name -> value of the renamed local
+            d = dict(d)
+            for r, c in alias.items():
+                if r not in d and c in d:
+                    d[r] = d[c]
+            return Roots(d)
+        spec_local_types = {alias.get(k, k): v for k, v in spec.local_types.items()}
         entry_roots = dict(fr.locals)
         entry_snapshot, _ = clone_graph(entry_roots)
-        pre = Roots(entry_snapshot)
+        pre = view(entry_snapshot)
         idx0 = z3.IntVal(0)
 
         def inv_at(idx, label, kind):
-            env = Roots(dict(fr.locals))
+            env = view(fr.locals)
             for lbl, f in spec.invariant(self, pre, env, idx, n):
                 ctx.oblige(f"{name}::{kind}::{lbl}", f, kind=kind, line=s.lineno, props=spec.props)
 
         def assume_inv(idx):
-            env = Roots(dict(fr.locals))
+            env = view(fr.locals)
             for lbl, f in spec.invariant(self, pre, env, idx, n):
                 ctx.assume(f)
 
@@ -1572,11 +1634,11 @@ class Interp:
         # 2. havoc what the loop may modify
         assigned = _assigned_names(s)
         for nm in assigned:
-            if nm in spec.local_types:
+            if nm in spec_local_types:
                 continue  # declared type: havocked below
             if nm in fr.locals:
                 fr.locals[nm] = self.havoc_like(fr.locals[nm], f"lp:{nm}")
-        for nm, t in spec.local_types.items():
+        for nm, t in spec_local_types.items():
             fr.locals[nm] = self.fresh_value(t, f"lp:{nm}!{next(ctx._n)}")
         for loc in spec.modifies:
             obj, fld = self.resolve_loc(fr.locals, loc)
@@ -1597,7 +1659,7 @@ class Interp:
             # summarised by the loop's body_post obligations, the trace only records that a loop ran
             ctx.event("loop_summary", loop=name)
             return
-        variant0 = spec.variant(self, Roots(dict(fr.locals)), idx, n) if spec.variant else None
+        variant0 = spec.variant(self, view(fr.locals), idx, n) if spec.variant else None
         if is_for:
             self.assign(s.target, item_at(idx), fr)
         try:
@@ -1608,12 +1670,12 @@ class Interp:
             pass
         nxt = idx + 1 if is_for else None
         if spec.body_post is not None:
-            head = Roots(head_snapshot)
-            for lbl, f in spec.body_post(self, pre, head, Roots(dict(fr.locals)), ctx.trace[n_head_events:], idx):
+            head = view(head_snapshot)
+            for lbl, f in spec.body_post(self, pre, head, view(fr.locals), ctx.trace[n_head_events:], idx):
                 ctx.oblige(f"{name}::loop-body::{lbl}", f, kind="loop-body", line=s.lineno, props=spec.props)
         inv_at(nxt, "preserve", "loop-inv-preserve")
         if spec.variant:
-            v1 = spec.variant(self, Roots(dict(fr.locals)), nxt, n)
+            v1 = spec.variant(self, view(fr.locals), nxt, n)
             ctx.oblige(f"{name}::variant", z3.And(variant0 >= 0, v1 < variant0), kind="variant", line=s.lineno,
                        props=spec.props)
         self.check_loop_frame(head_snapshot, fr, spec, name, s.lineno)
